@@ -360,6 +360,64 @@ func runTwoServer(sc *scenario, b run.Batch, r *ev.Result) {
 	if okB && inRounds(Y) > 0 {
 		judge(Y, "Y")
 	}
+	// ---- phase C: a server that has confirmed everything loses its report log. What one
+	// server (or an earlier life of the same server) confirmed says nothing about another:
+	// a round that completes against a server whose bitfield asks for slots is answered with
+	// those slots.
+	if okB && inRounds(Y) > 0 && r.NumViolations() == 0 {
+		round := func(what string) (bool, bool) {
+			ch := make(chan bool, 1)
+			go func() { ch <- c.VerifSyncOnce(latest) }()
+			select {
+			case ok := <-ch:
+				return ok, true
+			case <-time.After(60 * time.Second):
+				closed = true
+				inconc("%s did not return within 60s", what)
+				return false, false
+			}
+		}
+		trace("round C: both servers hold every report, whichever answers confirms all of them")
+		if _, ok := round("round C"); !ok {
+			return
+		}
+		if err := handledAll(); err != nil {
+			inconc("%v", err)
+			return
+		}
+		trace("server %d is stopped, loses equipment-reports.dat and is started again; server %d refuses the next round", Y, X)
+		if err := sd[Y].w.Close(); err != nil {
+			inconc("close of server %d: %v", Y, err)
+			return
+		}
+		if err := os.Truncate(filepath.Join(sd[Y].w.Dir, "equipment-reports.dat"), 0); err != nil {
+			inconc("truncate: %v", err)
+			return
+		}
+		if err := sd[Y].w.Start(); err != nil {
+			inconc("restart of server %d: %v", Y, err)
+			return
+		}
+		if err := sd[Y].relay.SetTarget(sd[Y].w.UDP); err != nil {
+			inconc("relay target: %v", err)
+			return
+		}
+		sd[Y].proxy.SetTarget(sd[Y].w.TCP)
+		sd[X].proxy.SetPlan([]TCPFate{{Kind: "refuse"}, {Kind: "refuse"}, {Kind: "refuse"}})
+		okD, ok := round("round D")
+		sd[X].proxy.SetPlan(nil)
+		if !ok {
+			return
+		}
+		if err := handledAll(); err != nil {
+			inconc("%v", err)
+			return
+		}
+		if okD {
+			r.Count("two_server.round_against_a_server_that_lost_its_reports", 1)
+			judge(Y, "Y after it lost its report log")
+		}
+	}
 	firstSeen := map[uint32][]byte{}
 	for i := range sd {
 		for _, s := range sd[i].relay.Log() {
